@@ -498,6 +498,10 @@ BAD_LINES = ["\x0c", "\x0b", "\x1f", "\u00a0", "\u2028", "\x0c\x0c", "\u3000 ", 
              "TRIGGER:-P99999999999D", "FREEBUSY:00010101T000000Z/-P1D", "EXDATE;TZID=a,b:20200101T000000", "RRULE:FREQ=YEARLY;BYMONTH=", "RRULE:FREQ=YEARLY;BYDAY=,", "RRULE:FREQ=;COUNT=", "RRULE:BYMONTH=L", "DTSTART:garbage", "DTSTART;TZID=Europe/Berlin:2021", "DTEND:20210230T000000", "DURATION:forever", "RRULE:FREQ=SOMETIMES", "GEO:1.0", "GEO:a;b",
              "PRIORITY:high", "SEQUENCE:1.5", "no colon here", ";=:", "X-A;P=\"unterminated:v", "X-A;=v:x", "X-A;P\x01=1:v", "X-A;P=a\x02b:v", ":value", "X-A;:v",
              "TRIGGER:soon", "EXDATE:20210101,notadate", "RDATE;VALUE=PERIOD:20210101T000000/x", "FREEBUSY:x/y", "TZOFFSETFROM:+25", "ATTACH;ENCODING=BASE64;VALUE=BINARY:%%%",
+             # multi-valued lines whose FIRST items are fine and a later one is not: the line is dropped as a whole
+             "FREEBUSY:20210101T000000Z/PT1H,garbage", "FREEBUSY;FBTYPE=BUSY:20210101T000000Z/20210101T010000Z,20210102T000000Z/x", "freebusy:20210101T000000Z/PT1H,",
+             "FREEBUSY:20210101T000000Z/PT1H,20210102T000000Z/PT1H,20210103T000000Z/20210102T000000Z", "RDATE;VALUE=PERIOD:20210101T000000Z/PT1H,20210102T000000Z/",
+             "RDATE:20210101T000000,20219999T000000", "EXDATE;TZID=Europe/Berlin:20210101T000000,x", "RDATE;VALUE=DATE:20210101,2021010", "EXDATE:20210101T000000Z,20210101T000000Z,Z",
              "COMPLETED:2021-01-01", "DTSTART;VALUE=DATE:2021010", "X-A;P=1;P:v", "CREATED:99999999T999999Z", "RECURRENCE-ID:T", "DUE;TZID=:x", "REPEAT:x"]
 GOOD_LINES = ["URL:https://example.com/one\\ntwo", "ATTACH:file:///C:\\notes\\new.txt", "TZURL:http://x/\\Nb\\;c\\,d", "DTSTART:00010101T000000", "DTSTART:99991231T235959Z",
               "ATTENDEE;CN=a,:mailto:a@example.com", "X-A;P=x,,y:v", "X-A;LANGUAGE=,:v", "X-A;P=,a;Q=:v", 'X-A;P="",b:v', "X-A:anything goes", "COMMENT:fine", "DTEND;TZID=Europe/Berlin:20210302T111500", "PRIORITY:5", "GEO:1.5;2.5", "EXDATE:20210101T000000Z",
